@@ -44,3 +44,21 @@ CHECKS["C01"] = {
         {"name": "TestCrashRecovery", "quick": 60, "thorough": {"checks": 150, "shards": 16}},
     ],
 }
+
+CHECKS["C02"] = {
+    "pkg": "./c02/",
+    "level": "exploration",
+    "technique": "stateful property-based testing (rapid) with harness-owned interleavings at operation and seam granularity, reference-model oracle + deletion/unmap monitors; goroutine stress variant with a prefix-order oracle",
+    "rule": ("rapid state machine: writer flushes, an unfinished writer (pending output), synchronous level-0 compactions, obsolete-file passes, reader-cache cleanups (TTL 1ns), reopen, and readers that "
+             "take/read(Load | FindReaders+Get | scan of all files)/close snapshots - also re-entrantly at the listDir/removeDir seams inside deleteObsoleteFiles. Oracle: held snapshot == model content at "
+             "acquisition at every later read; monitors on removeDir/unmap. non-trivial history = some snapshot was read and held across >= 1 compaction commit and >= 1 obsolete-file pass or cache cleanup; "
+             "TestConcurrentStress round non-trivial = some snapshot was held across a commit; distinct = history hash"),
+    "level_text": ("Exploration of generated interleavings on one goroutine (operation granularity + the seams inside the obsolete-file pass), plus an unsystematic real-goroutine stress run "
+                   "(with -race in the thorough tier) whose oracle (snapshot = prefix 1..m of the commit order, lo<=m<=hi, stable on re-read) cannot raise false alarms."),
+    "level_note": "Pre-emption at arbitrary instructions is only reached by the stress variant; rollup bookkeeping (live rollup files) is exercised in C04.",
+    "assumptions": ["cache TTL compared in milliseconds: the harness sleeps 2 ms before a cleanup so that eviction is possible", "store close only with no snapshot held (as in production shutdown)"],
+    "tests": [
+        {"name": "TestSnapshotStability", "quick": 400, "thorough": {"checks": 1500, "shards": 12}},
+        {"name": "TestConcurrentStress", "quick": {}, "thorough": {"race": True, "timeout": 3000}},
+    ],
+}
